@@ -87,3 +87,32 @@ def sync_one_property(input_module, output_module, output_param):
 
     annotate_ancestry(output_module)
     return sync_property(False, "Cfg.x", input_module, "input.py", output_param, None, output_module)
+
+
+def argparse_function_roundtrip(ir):
+    """C04, whole description: emit the argparse function, read it back"""
+    from doctrans.emit import argparse_function
+    from doctrans.parse import argparse_ast
+
+    fd = argparse_function(ir, emit_default_doc=False, function_name="set_cli_args", function_type="static", word_wrap=False)
+    return argparse_ast(fd, function_name="set_cli_args")
+
+
+def class_roundtrip(ir):
+    """C02, whole description: emit the class, read it back (the docstring text is opaque: what comes back is what the attributes carry)"""
+    from doctrans.emit import class_ as emit_class
+    from doctrans.parse import class_ as parse_class
+
+    return parse_class(emit_class(ir, class_name="C", emit_default_doc=False, word_wrap=False))
+
+
+def chain_class_argparse(ir):
+    """C05, one chain: description -> class -> description -> argparse function -> description"""
+    from doctrans.emit import argparse_function
+    from doctrans.emit import class_ as emit_class
+    from doctrans.parse import argparse_ast
+    from doctrans.parse import class_ as parse_class
+
+    mid = parse_class(emit_class(ir, class_name="C", emit_default_doc=False, word_wrap=False))
+    fd = argparse_function(mid, emit_default_doc=False, function_name="set_cli_args", function_type="static", word_wrap=False)
+    return argparse_ast(fd, function_name="set_cli_args")
